@@ -219,11 +219,15 @@ def run_lines(binary, mode, cases, shards=NCPU):
     if not cases:
         return []
     n = max(1, min(shards, len(cases) // 50 or 1))
-    size = (len(cases) + n - 1) // n
-    parts = [cases[i:i + size] for i in range(0, len(cases), size)]
+    # round-robin over the shards: generators emit their heavy families (long Bezier segments, large files) next to each
+    # other, and contiguous blocks would put them all into one process
+    parts = [cases[i::n] for i in range(n)]
     with cf.ThreadPoolExecutor(max_workers=n) as ex:
         outs = list(ex.map(_run_shard, [(binary, mode, p) for p in parts]))
-    res = [o for part in outs for o in part]
+    res = [None] * len(cases)
+    for i, part in enumerate(outs):
+        for j, o in enumerate(part):
+            res[i + j * n] = o
     # a request that ran into the per-request limit of the harness is asked once more, alone and with a limit six times as
     # long, before it counts as "does not return": on a loaded machine a heavy request (a large bundled map under an oracle that
     # re-decodes it hundreds of times) can exceed the default limit without hanging (seen once in a seed sweep run next to a
